@@ -580,4 +580,44 @@ Section WithTables.
     if negb (q_backup q =? 0) && (q_nodes q =? 0) then false
     else if q_nodes q =? 0 then negb (q_cores q =? 0)
     else (q_cores q =? 0) && (q_gpus q =? 0).
+  (* ------------------------------------------------ what arrives in the pilot sandboxes
+     _prepare_pilot writes the agent configuration of pilot i to a local file and records a
+     staging directive (that file -> <sandbox of pilot i>/agent_0.cfg).  _start_pilot_bulk
+     prepares ALL pilots of the bulk first and runs the staging directives afterwards, so a
+     sandbox receives the content its file has AFTER the whole prepare loop.
+     Pilots are identified by their position in the bulk. *)
+  Record told := {
+    t_pid : Z;                      (* agent_cfg['pid'] : which pilot the agent believes it serves *)
+    t_sandbox : Z;                  (* agent_cfg['pilot_sandbox'] : whose sandbox *)
+    t_nodes : Z; t_backup : Z; t_cores : Z; t_gpus : Z; t_cpn : Z; t_gpn : Z
+  }.
+
+  (* the agent configuration _prepare_pilot builds for pilot i *)
+  Definition told_of (i : nat) (s : sized) : told :=
+    {| t_pid := Z.of_nat i; t_sandbox := Z.of_nat i;
+       t_nodes := a_nodes s; t_backup := a_backup s; t_cores := a_cores s; t_gpus := a_gpus s;
+       t_cpn := a_cpn s; t_gpn := a_gpn s |}.
+
+  (* a file store as the sequence of writes; reading yields the latest write to that name *)
+  Definition latest {V} (k : nat) (l : list (nat * V)) : option V :=
+    fold_left (fun acc kv => if Nat.eqb k (fst kv) then Some (snd kv) else acc) l None.
+
+  Definition enumerate {A} (l : list A) : list (nat * A) := combine (seq 0 (List.length l)) l.
+
+  (* the writes of the prepare loop, `name i` being the local file used for pilot i *)
+  Definition written (name : nat -> nat) (ss : list sized) : list (nat * told) :=
+    map (fun x => (name (fst x), told_of (fst x) (snd x))) (enumerate ss).
+
+  (* deferred staging: the sandbox of pilot i receives file `name i` as it is after the loop *)
+  Definition received (name : nat -> nat) (ss : list sized) (i : nat) : option told :=
+    if (i <? List.length ss)%nat then latest (name i) (written name ss) else None.
+
+  (* tempfile.mkstemp: a new file for every call *)
+  Definition fresh_name (i : nat) : nat := i.
+
+  (* _start_pilot_bulk up to job submission: per pilot, the job figures and what its agent will read *)
+  Definition launch_bulk_staged (site rname : string) (schema : option string) (qs : list request)
+    : res (list (sized * option told)) :=
+    do ss <- launch_bulk site rname schema qs;
+    inr (map (fun x => (snd x, received fresh_name ss (fst x))) (enumerate ss)).
 End WithTables.
